@@ -27,8 +27,8 @@ ENTRIES = ["expr", "textual", "textuals", "boxed", "context", "unary"]
 # scopes
 # ------------------------------------------------------------------------------------------
 def scopes():
-    big_s = "abc" * 4000
-    big_l = [{"n": str(k % 97)} for k in range(3000)]
+    big_s = "abc" * 1000
+    big_l = [{"n": str(k % 97)} for k in range(400)]
     populated = [
         ["a", {"n": "1"}], ["b", {"n": "2.5"}], ["s", {"s": "text"}], ["t", True], ["z", None], ["l", [{"n": "1"}, {"n": "2"}, {"n": "3"}]],
         ["c", {"c": [["x", {"n": "1"}], ["y", {"c": [["z", {"s": "deep"}]]}]]}],
@@ -140,6 +140,25 @@ def mutate(rng, s):
     return s + rng.choice([" in(", " in (1)", " [", " (", " .", " ..", " between", " and", " instance of", " return", " satisfies"])
 
 
+def token_pair_texts():
+    """every ordered pair of lexical tokens / keywords in four surroundings"""
+    out = []
+    for a in TOKENS:
+        for b in TOKENS:
+            out.append("%s %s" % (a, b))
+            out.append("%s %s 1" % (a, b))
+            out.append("x %s %s 1" % (a, b))
+            out.append("%s%s(1)" % (a, b))
+    # after for / some / every the lexer looks for the iteration variable up to `in`: every token pair there
+    for head in ("for", "some", "every"):
+        tail = " return 1" if head == "for" else " satisfies true"
+        for a in TOKENS:
+            for b in TOKENS:
+                out.append("%s %s%s1)%s" % (head, a, b, tail))
+                out.append("%s %s %s [1]%s" % (head, a, b, tail))
+    return out
+
+
 def deep_texts():
     out = []
     for d in (50, 120, 200):
@@ -195,8 +214,13 @@ ARG_TEXTS = [
     'date and time("2021-01-01T10:00:00")', 'date and time("2021-03-28T02:30:00@Europe/Warsaw")', 'date and time("2021-10-31T02:30:00@Europe/Warsaw")', 'date and time("999999999-12-31T23:59:59Z")',
     'duration("P1D")', 'duration("-PT1S")', 'duration("P2D")', 'duration("P1Y")', 'duration("P9223372036854775807Y")', 'duration("P106751991167D")', 'duration("PT9223372036S")',
     "[1..2]", "(1..2)", "[\"a\"..\"z\"]", "function(a) a", "function(a, b) a < b", "abs", "f", "item", "a", "b", "l", "s", "z", "t",
+    'time(10, 0, 0, duration("P2D"))', 'time(10, 0, 0, duration("-P2D"))', 'time(23, 59, 59.999999999, duration("PT14H"))', 'time(10, 0, 0, duration("PT18H"))', 'time(10, 0, 0, duration("PT0.5S"))',
+    'date and time(date("2021-03-28"), time("02:30:00@Europe/Warsaw"))', 'date and time(date("999999999-12-31"), time("23:59:59+14:00"))', 'date and time(date("-999999999-01-01"), time("00:00:00-14:00"))',
+    'date and time("262143-12-31T23:59:59Z")', 'date and time("262144-01-01T00:00:00Z")', 'date("262144-01-01")', 'date("-262145-01-01")', 'time("00:00:00@America/Sao_Paulo")', 'time("02:30:00@Europe/Warsaw")',
+    'duration("P178956970Y")', 'duration("-P999999999Y11M")', 'years and months duration(date("-999999999-01-01"), date("999999999-12-31"))', 'date("2021-01-31") + duration("P1M")',
+    'date and time("2021-01-01T00:00:00@Europe/Warsaw") - date and time("1021-01-01T00:00:00Z")', "@\"2021-03-28T02:30:00@Europe/Warsaw\"", "@\"P9223372036854775807Y\"",
 ]
-REDUCED = ["null", "0", "1", "-1", "1.5", "18446744073709551615", "huge", "tiny", '""', '"abc"', "bigs", "nuls", "[]", "[1, 2, 3]", "[1, null]", "bigl", "{a: 1}", 'date("2021-01-01")',
+REDUCED = ['time(10, 0, 0, duration("P2D"))', 'date and time("262144-01-01T00:00:00Z")', 'date and time(date("2021-03-28"), time("02:30:00@Europe/Warsaw"))', "null", "0", "1", "-1", "1.5", "18446744073709551615", "huge", "tiny", '""', '"abc"', "bigs", "nuls", "[]", "[1, 2, 3]", "[1, null]", "bigl", "{a: 1}", 'date("2021-01-01")',
            'time("10:00:00@Europe/Warsaw")', 'date and time("2021-03-28T02:30:00@Europe/Warsaw")', 'duration("P2D")', 'duration("P1Y")', 'duration("P9223372036854775807Y")', "function(a, b) a < b", "[1..2]", "true"]
 OPERATORS = ["+", "-", "*", "/", "**", "=", "!=", "<", "<=", ">", ">=", "and", "or", "in"]
 PROPS = ["year", "month", "day", "weekday", "hour", "minute", "second", "time offset", "timezone", "days", "hours", "minutes", "seconds", "years", "months", "start", "end", "x"]
@@ -296,6 +320,7 @@ def run(rep, tier, seed):
     texts_by_class["grammar-mutated"] = [mutate(rng, t) for t in texts_by_class["grammar"][: (3000 if tier == "quick" else 150000)]]
     texts_by_class["unicode"] = unicode_texts(rng, 1500 if tier == "quick" else 60000)
     texts_by_class["deep"] = deep_texts()
+    texts_by_class["token-pairs"] = token_pair_texts()
     texts_by_class["bif"] = bif_sweep(rng, bifs, tier)
     # iteration domains outside the property's bound (size product of a few thousand) are legitimate
     # long-running work, not hangs: keep mutated texts with such ranges out of the workload
